@@ -285,6 +285,12 @@ fn unesc_nl(s: &str) -> Option<String> {
     Some(o)
 }
 
+/// The reader of custom-text lines: 0 = not decided yet (either reading is accepted: only the two witness cases
+/// that decide it are judged this way), 1 = verbatim (the tree writes custom text as it is), 2 = escaped (the tree
+/// writes `\\`, `\n`, `\r` for backslash, LF, CR: a line parses back through `unesc_nl`, and a line that does not
+/// unescape to the emitted text does not parse back to the emitted record).
+static CUSTOM_READER: std::sync::atomic::AtomicU8 = std::sync::atomic::AtomicU8::new(0);
+
 /// The property on the observed file. Returns (oracle line, defect classes seen).
 fn file_oracle(fmt: &str, us: &[GUpd], obs: &FileObs) -> String {
     let msgs = msgs_of(us);
@@ -302,7 +308,13 @@ fn file_oracle(fmt: &str, us: &[GUpd], obs: &FileObs) -> String {
             GRec::Entry(e) if e.custom.is_some() => {
                 let s = e.custom.as_ref().unwrap();
                 let cur = lines.get(idx).copied();
-                if cur == Some(s.as_str()) || (cur.is_some() && !cur.unwrap().contains('\n') && unesc_nl(cur.unwrap()).as_deref() == Some(s.as_str()) && s.contains(|c| c == '\n' || c == '\r' || c == '\\')) { idx += 1; }
+                let reader = CUSTOM_READER.load(std::sync::atomic::Ordering::SeqCst);
+                let verbatim = cur == Some(s.as_str());
+                let escaped = cur.is_some() && !cur.unwrap().contains('\n') && unesc_nl(cur.unwrap()).as_deref() == Some(s.as_str());
+                if match reader { 1 => verbatim, 2 => escaped, _ => verbatim || (escaped && s.contains(|c| c == '\n' || c == '\r' || c == '\\')) } { idx += 1; }
+                else if reader == 2 && cur.is_some() && (verbatim || unesc_nl(cur.unwrap()).is_none() || unesc_nl(cur.unwrap()).as_deref() != Some(s.as_str())) && !s.contains('\n') {
+                    return format!("fail file-out:custom-text-does-not-parse-back message {k}: line {idx} does not unescape to the emitted custom text");
+                }
                 else if s.contains('\n') {
                     let segs: Vec<&str> = s.split('\n').collect();
                     if lines.len() >= idx + segs.len() && lines[idx..idx + segs.len()] == segs[..] { idx += segs.len(); split += 1; }
@@ -527,6 +539,11 @@ fn main() {
     let mut rec = Recorder::new("file: 1-8 Updates (route traffic interleaved with OutputStream batches of 0-3 messages: routes with 9 attribute blobs, peer-down, custom pairs, log entries with every optional field set/unset, custom text over an alphabet with quotes, backslashes, control characters, LF/CR, non-ASCII) through the real File::run via a real Gate/Link, per format; mqtt: the same sequences through the real MqttRunner::direct_update with 4 component names x 8 topic templates x 0-3 registered ingresses; non-trivial = file case with >= 2 messages of >= 2 record kinds / mqtt case where some but not all messages are addressed to the component; distinct = distinct case lines");
 
     if let Some(path) = &args.replay {
+        // the reader of custom-text lines is decided by the witness, also when only replaying
+        let mut tmp = Recorder::new("");
+        let lf = GMsg { name: "mqtt".into(), topic: "log_entry".into(), ingress: None, rec: GRec::Entry(GEntry { custom: Some("a\nb".into()), ..Default::default() }) };
+        let w = file_case(&ctx, &mut tmp, "json", &[GUpd::Out(vec![lf])]);
+        CUSTOM_READER.store(if w.bytes == b"a\nb\n" { 1 } else { 2 }, std::sync::atomic::Ordering::SeqCst);
         for line in verif_harness::replay_cases(path) { replay_line(&ctx, &mut rec, &line); }
         rec.finish(&args, t0.elapsed().as_secs_f64());
         let _ = std::fs::remove_dir_all(&dir);
@@ -540,6 +557,7 @@ fn main() {
     let lf = GMsg { name: "mqtt".into(), topic: "log_entry".into(), ingress: None, rec: GRec::Entry(GEntry { custom: Some("a\nb".into()), ..Default::default() }) };
     let w = file_case(&ctx, &mut rec, "json", &[GUpd::Out(vec![lf.clone()])]);
     rec.variant("nl", if w.bytes == b"a\nb\n" { "as-written" } else { "repaired" });
+    CUSTOM_READER.store(if w.bytes == b"a\nb\n" { 1 } else { 2 }, std::sync::atomic::Ordering::SeqCst);
     let xr = GMsg { name: "mqtt".into(), topic: "prefix".into(), ingress: None, rec: GRec::Route(Some(GRoute { pfx: "1.2.3.0/24".into(), fam: 0, attrs: 5 })) };
     let w = file_case(&ctx, &mut rec, "csv", &[GUpd::Out(vec![xr.clone()])]);
     rec.variant("csv", if w.panicked { "as-written" } else { "repaired" });
